@@ -14,7 +14,9 @@
   Proved here, for ALL inputs of the model (`Aegean/Model/C13.lean`), over ℝ:
 
   * `islands_negation_invariant`        detection sees only `|im − bkg| / rms`
-  * `curvature_negation`, `island_curve_negation`   peaks ↔ troughs, for every window (repaired
+  * `curvature_negation`, `island_curve_negation`, `rank_filters_mirror`   peaks ↔ troughs, for every
+                                         window, blank (NaN) pixels included — scipy's rank filters are
+                                         modelled as the ring algorithm they are (repaired
                                          rule `icurve[tmask] += 1`); `curvature_negation_pinned` /
                                          `curvature_flat_witness`: the pinned rule (troughs written
                                          last) is symmetric only away from flat pixels
@@ -57,38 +59,66 @@ theorem islands_negation_invariant (H W : Nat) (im bkg rms : Px → Option ℝ) 
 /-! ### 2. curvature -/
 
 /-- **curvature_negation**: on the negated window peaks and troughs change places, so the
-    curvature map negates, at every pixel of every window (repaired code: `icurve[tmask] += 1`). -/
-theorem curvature_negation (H W : Nat) (img : Px → ℝ) (p : Px) :
-    curveAt H W (fun q => -img q) p = -curveAt H W img p :=
+    curvature map negates, at every pixel of every window — blank (NaN) pixels included: the
+    model runs scipy's ring algorithm, whose output with NaNs is not the window's min/max, and
+    the theorem holds because that algorithm with `≥` on `−x` retraces the one with `≤` on `x`
+    step by step (`filter2d_map`).  (Repaired rule `icurve[tmask] += 1`.) -/
+theorem curvature_negation (H W : Nat) (img : Px → Option ℝ) (p : Px) :
+    curveAt H W (negImg img) p = -curveAt H W img p :=
   curveAt_neg H W img p
+
+/-- the two rank filters are mirror images of each other, NaN pixels included -/
+theorem rank_filters_mirror (H W : Nat) (img : Px → Option ℝ) :
+    maxFilter H W (negImg img) = (minFilter H W img).map (List.map negO) ∧
+    minFilter H W (negImg img) = (maxFilter H W img).map (List.map negO) :=
+  ⟨maxFilter_neg H W img, minFilter_neg H W img⟩
 
 /-- the pinned tree (`icurve[tmask] = 1`, troughs written last): the curvature negates only at
     pixels that are not both a 3×3 maximum and a 3×3 minimum … -/
-theorem curvature_negation_pinned (H W : Nat) (img : Px → ℝ) (p : Px)
+theorem curvature_negation_pinned (H W : Nat) (img : Px → Option ℝ) (p : Px)
     (hflat : ¬ (isPeak H W img p = true ∧ isTrough H W img p = true)) :
-    curveAtPinned H W (fun q => -img q) p = -curveAtPinned H W img p := by
+    curveAtPinned H W (negImg img) p = -curveAtPinned H W img p := by
   rw [curveAtPinned_neg]
   simp only [curveAtPinned]
   cases hp : isPeak H W img p <;> cases ht : isTrough H W img p <;> simp_all
 
 /-- … and the hypothesis is necessary there: a pixel whose whole neighbourhood is equal got `+1`
     in the image *and* in its negative (so it could become a summit of a negative island but
-    never of a positive one: fixes/C13-01).  The repaired rule gives 0 in both. -/
+    never of a positive one: fixes/C13-01).  The repaired rule gives 0 in both.  (At `Float`.) -/
 theorem curvature_flat_witness :
-    curveAtPinned 3 3 (fun _ => (2 : ℝ)) (1, 1) = 1 ∧
-    curveAtPinned 3 3 (fun q => -(fun _ => (2 : ℝ)) q) (1, 1) = 1 ∧
-    curveAt 3 3 (fun _ => (2 : ℝ)) (1, 1) = 0 ∧
-    curveAt 3 3 (fun q => -(fun _ => (2 : ℝ)) q) (1, 1) = 0 := by
-  refine ⟨?_, ?_, ?_, ?_⟩ <;> simp [curveAt, curveAtPinned, isTrough, isPeak, le_real]
+    curveAtPinned 3 3 (fun _ => some (2.0 : Float)) (1, 1) = 1 ∧
+    curveAtPinned 3 3 (negImg (fun _ => some (2.0 : Float))) (1, 1) = 1 ∧
+    curveAt 3 3 (fun _ => some (2.0 : Float)) (1, 1) = 0 ∧
+    curveAt 3 3 (negImg (fun _ => some (2.0 : Float))) (1, 1) = 0 := by
+  decide +kernel
 
-/-- the cropped curvature map of an island box negates (any image, any box) -/
-theorem island_curve_negation (imgH imgW xmin xmax ymin ymax : Nat) (img : Px → ℝ) (p : Px) :
-    islandCurve imgH imgW xmin xmax ymin ymax (fun q => -img q) p
+/-- a 3×3 window whose extreme pixel (centre, value `v`) touches two blank pixels -/
+def blankW (v : Float) : Px → Option Float := fun p =>
+  ([[some (v * 0.2), some (v * 0.4), some (v * 0.2)], [some (v * 0.5), some v, none],
+    [some (v * 0.2), some (v * 0.4), none]].getD p.1 []).getD p.2 none
+
+/-- non-vacuity with blanks: the extreme pixel next to NaN pixels is a peak (−1) of the positive
+    window and a trough (+1) of the negative one — the blank neighbours do not hide it — and the
+    whole maps are mirror images.  (A rule that fills blanks with −∞ before *both* filters makes
+    the negative centre's neighbourhood minimum −∞, so it is no trough: seeded change C13-5.) -/
+theorem curvature_blank_witness :
+    (allPx 3 3).map (curveAt 3 3 (blankW 5.0)) = [1, 0, 1, 0, -1, 0, 1, 0, 0] ∧
+    (allPx 3 3).map (curveAt 3 3 (blankW (-5.0))) = [-1, 0, -1, 0, 1, 0, -1, 0, 0] := by
+  decide +kernel
+
+/-- the cropped curvature map of an island box negates (any image with blanks, any box) -/
+theorem island_curve_negation (imgH imgW xmin xmax ymin ymax : Nat) (img : Px → Option ℝ) (p : Px) :
+    islandCurve imgH imgW xmin xmax ymin ymax (negImg img) p
       = -islandCurve imgH imgW xmin xmax ymin ymax img p := by
   simp only [islandCurve]
   split
-  · exact curvature_negation _ _ _ _
+  · exact curvature_negation _ _ (fun t => img (t.1 + _, t.2 + _)) _
   · rfl
+
+/-- the bulk form used by the driver is the same map -/
+theorem islandCurveList_eq (imgH imgW xmin xmax ymin ymax : Nat) (img : Px → Option ℝ) :
+    islandCurveList imgH imgW xmin xmax ymin ymax img
+      = (allPx (xmax - xmin) (ymax - ymin)).map (islandCurve imgH imgW xmin xmax ymin ymax img) := rfl
 
 /-! ### 3. estimate_lmfit_parinfo -/
 
@@ -149,12 +179,12 @@ theorem flags_negation_invariant_partial (P : Params ℝ) (I : Island ℝ) (hs :
     window, and then every initial value, bound, flag and vary switch) is the mirror image of what
     it computes for the image. -/
 theorem fit_inputs_negation_partial (P : Params ℝ) (imgH imgW xmin xmax ymin ymax : Nat)
-    (img rms samp : Px → ℝ) (mem : Px → Bool)
+    (img : Px → Option ℝ) (rms samp : Px → ℝ) (mem : Px → Bool)
     (hs : SingleSign (mkIsland imgH imgW xmin xmax ymin ymax img rms samp mem))
     (hne : finitePx (mkIsland imgH imgW xmin xmax ymin ymax img rms samp mem) ≠ []) :
-    estimate P (mkIsland imgH imgW xmin xmax ymin ymax (fun q => -img q) rms samp mem)
+    estimate P (mkIsland imgH imgW xmin xmax ymin ymax (negImg img) rms samp mem)
       = (estimate P (mkIsland imgH imgW xmin xmax ymin ymax img rms samp mem)).map (List.map negC) := by
-  have e : mkIsland imgH imgW xmin xmax ymin ymax (fun q => -img q) rms samp mem
+  have e : mkIsland imgH imgW xmin xmax ymin ymax (negImg img) rms samp mem
       = negI (mkIsland imgH imgW xmin xmax ymin ymax img rms samp mem) := by
     simp only [mkIsland, negI]
     congr 1
